@@ -19,7 +19,10 @@ MANIFEST = {
              'every observation after every step of every guarded history), C01_exposed_readonly, C01_container_arrays_readonly, '
              'C01_caller_isolation, C01_pickle_roundtrip / C01_deepcopy_roundtrip (same content, read-only, private), '
              'C01_setstate_refreezes_every_array_slot (about the table regenerated from the source: every ndarray slot of every class is re-frozen), C01_no_protect_site_lost / C01_thaw_sites_whitelisted '
-             '(census of the ~160 freeze sites regenerated from the AST vs the pinned table), C01_positions_allocator_publishes_frozen (AST audit of '
+             '(census of the ~160 freeze sites regenerated from the AST vs the pinned table), C01_immutable_filter_matches_model (the copy / keep decision of '
+             'util.immutable_filter REGENERATED from its AST equals the dispatch used inside the model M) and C01_constructor_routes_match_source (Series.__init__, '
+             'Index._extract_labels, TypeBlocks.from_blocks / append, Frame.__init__ with and without own_data send an ndarray argument through it; the M terms of the '
+             'cases name these regenerated routes), C01_positions_allocator_publishes_frozen (AST audit of '
              'util.PositionsAllocator: every (re)allocation of the process-wide positions array is frozen before it is published). A second model '
              '(SF/HeapGrow.v) for GROWABLE MEMBERS (block list of a TypeBlocks, label list AND label map (AutoMap) of IndexGO / IndexHierarchyGO, the block table an '
              'IndexHierarchy caches; steps GNew / GFrom route / GGrow): '
@@ -37,12 +40,20 @@ MANIFEST = {
              'they hold and hand out is checked, and every later stratum runs in that process state; (4) grow strata: static containers built FROM grow-only ones '
              '(and vice versa) through every constructor / to_frame* / from_concat / copy / rename / selection / pickle / deepcopy route, then every mutator '
              '(setitem, extend, extend_items, append) on the grow-only side, whole member trace compared with gM and gS inside Coq, plus a Python-side product of '
-             '6 source kinds x 27 / 12 routes x mutators (hierarchical and date labels, rows / reductions / columns taken from a FrameGO, IndexGO handed in as labels).'),
+             '6 source kinds x 27 / 12 routes x mutators (hierarchical and date labels, rows / reductions / columns taken from a FrameGO, IndexGO handed in as labels); '
+             '(5) scripted routes (coverage-guided, tools/cov_cases.py): ~115 routes with paired valid arguments that pooled calls do not reach -- np.tile / np.repeat constructors, '
+             'from_overlay, from_pandas incl. nullable / string / categorical dtypes, typed-index dtype conversion, date-range constructors, every FrameGO.__setitem__ value kind, every '
+             'branch of TypeBlocks.resize_blocks (reindex), shift / roll, fillna families across block boundaries, clip with containers, astype maps, every operand kind of binary operators '
+             'incl. reflected and matmul, 1-D and 2-D set operations (identical / other dtype / empty / list / set / array operands), searchsorted past the end, accessors on object cells and '
+             '2-D blocks, bloc assignment with partial Frames, depth-3 IndexHierarchyGO appends, from_records / from_items / from_fields / from_concat / from_delimited / from_sql variants, '
+             'sorts, inserts, joins, pivots, by-blocks assignment over 2-D blocks, reductions on object / empty frames, equals branches, unsigned / bytes / timedelta / 1-wide 2-D blocks.'),
     'note': ('trusted: Coq kernel, hand-written model SF/Heap.v (tied to the code by the trace correspondence), AST extractor generate() in this module, '
              'harness. NumPy facts are modelling assumptions validated only by the correspondence runs. PARTIAL: that each of the ~160 freeze sites '
              'follows the protocol is decided by the enumeration (Python-side observation, argument pools sampled in rotation) and by the census '
              'tripwire, not by proof; members *_pool (process pools), to_clipboard / from_clipboard, explicit __init__ / __setstate__ calls on a live '
-             'instance and @ on object-valued receivers (NumPy segfault) are not exercised. Three known findings (known/C01.jsonl); four earlier findings were repaired in /repo and are kept as regression cases (stratum regression:repaired-findings, heap:pickle-index-regression).'),
+             'instance and @ on object-valued receivers (NumPy segfault) are not exercised; NOT COVERED because the optional packages are absent here: from_arrow / from_parquet / '
+             'from_msgpack / from_hdf5 / to_xarray (their freeze sites frame.py:2221, 2412 are never executed), the pandas<1 branches of from_pandas (frame.py:2076-2078, series.py:363-367), '
+             'via_str.startswith / endswith with a tuple argument (raises under NumPy 2, node_str.py:200, 457 unreachable); Bus / Batch / Quilt / Store belong to C17-C19. Three known findings (known/C01.jsonl); four earlier findings were repaired in /repo and are kept as regression cases (stratum regression:repaired-findings, heap:pickle-index-regression).'),
     'technique': 'invariant + refinement over histories of a heap model; differential traces; exhaustive interface enumeration',
 }
 PROPERTY_FILES = ['Properties/C01.v']
@@ -293,8 +304,8 @@ class Sim:
         self._note_filter(k)
         n = a.shape[0]
         self.conts.append(('series', self.sf.Series(a)))
-        self.emit(f'SConstruct [FromCaller RFilter {k}; {self._auto(n)}; {self._auto(n)}]', f'c{len(self.conts) - 1} = sf.Series(a{k})',
-                  mstep=('construct', [('filter', k), ('vals',), ('vals',)]))
+        self.emit(f'SConstruct [FromCaller route_series_init {k}; {self._auto(n)}; {self._auto(n)}]', f'c{len(self.conts) - 1} = sf.Series(a{k})',
+                  mstep=('construct', [('filter', k), ('vals',), ('vals',)]), step_spec=f'SConstruct [FromCaller RFilter {k}; {self._auto(n)}; {self._auto(n)}]')
         return True
 
     def c_index(self, k):
@@ -308,8 +319,8 @@ class Sim:
             return True
         self._note_filter(k)
         self.conts.append(('index', obj))
-        self.emit(f'SConstruct [FromCaller RFilter {k}; {self._auto(a.shape[0])}]', f'c{len(self.conts) - 1} = sf.Index(a{k})',
-                  mstep=('construct', [('filter', k), ('vals',)]))
+        self.emit(f'SConstruct [FromCaller route_index_labels {k}; {self._auto(a.shape[0])}]', f'c{len(self.conts) - 1} = sf.Index(a{k})',
+                  mstep=('construct', [('filter', k), ('vals',)]), step_spec=f'SConstruct [FromCaller RFilter {k}; {self._auto(a.shape[0])}]')
         return True
 
     def c_tb(self, ks):
@@ -325,9 +336,9 @@ class Sim:
             self._note_filter(k)
         # the same read-only argument twice: both slots keep it
         self.conts.append(('tb', obj))
-        self.emit('SConstruct [' + '; '.join(f'FromCaller RFilter {k}' for k in ks) + ']',
+        self.emit('SConstruct [' + '; '.join(f'FromCaller route_tb_from_blocks {k}' for k in ks) + ']',
                   f'c{len(self.conts) - 1} = TypeBlocks.from_blocks([{", ".join("a%d" % k for k in ks)}])',
-                  mstep=('construct', [('filter', k) for k in ks]))
+                  mstep=('construct', [('filter', k) for k in ks]), step_spec='SConstruct [' + '; '.join(f'FromCaller RFilter {k}' for k in ks) + ']')
         return True
 
     def c_frame(self, k, own):
@@ -342,9 +353,11 @@ class Sim:
         n = a.shape[0]
         self.conts.append(('frame', self.sf.Frame(a, own_data=own)))
         r = 'ROwn' if own else 'RFilter'
-        self.emit(f'SConstruct [FromCaller {r} {k}; {self._auto(n)}; {self._auto(n)}; {self._auto(1)}; {self._auto(1)}]',
+        rg = 'route_frame_init_own_data' if own else 'route_frame_init'
+        tail = f'{self._auto(n)}; {self._auto(n)}; {self._auto(1)}; {self._auto(1)}]'
+        self.emit(f'SConstruct [FromCaller {rg} {k}; {tail}',
                   f'c{len(self.conts) - 1} = sf.Frame(a{k}, own_data={own})',
-                  mstep=('construct', [('own' if own else 'filter', k), ('vals',), ('vals',), ('vals',), ('vals',)]))
+                  mstep=('construct', [('own' if own else 'filter', k), ('vals',), ('vals',), ('vals',), ('vals',)]), step_spec=f'SConstruct [FromCaller {r} {k}; {tail}')
         return True
 
     def c_series_list(self, vals):
@@ -2331,11 +2344,440 @@ def grow_api_cases(ctx):
                            py_fail=why, tags={'check': 'grow-source', 'source': sname, 'route': rname}, nontrivial=grew and static, key=f'growapi|{sname}|{rname}|{gname}')
 
 
+# =============================================================================== scripted routes (coverage-guided: freeze sites no pooled call reached)
+class RouteEnv:
+    '''One scripted route: receivers registered with reg() must not change, arrays registered with arr() are caller-held.'''
+
+    def __init__(self):
+        self.receivers, self.held = [], []
+
+    def reg(self, obj):
+        self.receivers.append(obj)
+        return obj
+
+    def arr(self, a):
+        self.held.append(a)
+        return a
+
+
+def _T(*thunks):
+    '''Evaluate independent calls of one route; a call that raises is a failing call (its receivers are still checked).'''
+    out = []
+    for th in thunks:
+        try:
+            out.append(th())
+        except AssertionError:
+            raise
+        except Exception as ex:  # noqa
+            out.append(None)
+    return tuple(out)
+
+
+def _routes():
+    import static_frame as sf
+    import pandas as pd
+    from static_frame.core.type_blocks import TypeBlocks
+    from static_frame.core.array_go import ArrayGO
+    nan = np.nan
+    R = []
+
+    def route(name, fn):
+        R.append((name, fn))
+
+    def F(e, cls=None, layout=None):
+        '''int 2-col block | float 1-D | str 1-D frame with NaN, flat labels'''
+        cls = cls or sf.Frame
+        tb = TypeBlocks.from_blocks([_ro(np.array([[1, 2], [3, 4], [5, 6]])), _ro(np.array([1.5, nan, -2.0])), _ro(np.array(['x', 'y', 'z']))])
+        return e.reg(cls(tb, index=tuple('abc'), columns=tuple('pqrs'), name='f', own_data=True))
+
+    def FN(e):
+        tb = TypeBlocks.from_blocks([_ro(np.array([[nan, 2.0, nan], [3.0, nan, nan], [nan, nan, 6.0]])), _ro(np.array([nan, 1.0, nan])), _ro(np.array([[1.0, nan], [nan, nan], [nan, 2.0]]))])
+        return e.reg(sf.Frame(tb, index=tuple('abc'), columns=tuple('pqrstu'), own_data=True))
+
+    def S(e):
+        return e.reg(sf.Series((3, 1, 2), index=tuple('abc'), name='s'))
+
+    # ---- constructors with freeze sites on rarely taken branches
+    route('Frame.from_elements(elements, columns=2 labels) [np.tile]', lambda e: sf.Frame.from_elements((1, 2, 3), columns=('a', 'b')))
+    route('Frame.from_elements(writeable ndarray, columns=3 labels, index=)', lambda e: sf.Frame.from_elements(e.arr(np.array([1.5, 2.5])), columns=tuple('abc'), index=('x', 'y')))
+    route('FrameGO.from_elements(list, columns=2)', lambda e: sf.FrameGO.from_elements(['u', 'v'], columns=(1, 2)))
+    route('Frame.from_overlay((f, g)) g has other columns and rows', lambda e: sf.Frame.from_overlay((e.reg(sf.Frame.from_records([(1.0, nan), (nan, 4.0)], columns=('a', 'b'), index=('x', 'y'))),
+                                                                                                     e.reg(sf.Frame.from_records([(9.0, 8.0), (7.0, 6.0)], columns=('b', 'c'), index=('y', 'z'))))))
+    route('Frame.from_overlay((f, g, h), index=, columns=)', lambda e: sf.Frame.from_overlay((F(e), F(e).iloc[::-1], FN(e)), index=tuple('abz'), columns=tuple('pqz')))
+    route('Series.from_overlay((s, t))', lambda e: sf.Series.from_overlay((e.reg(sf.Series((1.0, nan), index=('a', 'b'))), e.reg(sf.Series((5.0, 6.0), index=('b', 'c'))))))
+    route('Series(0-dim ndarray, index=3 labels) [np.repeat]', lambda e: sf.Series(e.arr(np.array(7)), index=tuple('abc')))
+    route('Series(0-dim ndarray) no index', lambda e: sf.Series(np.array('q')))
+    route('Series.from_element(element, index=IndexGO)', lambda e: sf.Series.from_element(1.5, index=sf.IndexGO(('a', 'b')), name='n'))
+    route('Series.from_concat((s, s2, empty))', lambda e: sf.Series.from_concat((S(e), e.reg(sf.Series((9,), index=('z',))), sf.Series(()))))
+    route('Series.from_concat(hierarchical)', lambda e: sf.Series.from_concat((e.reg(sf.Series((1, 2), index=sf.IndexHierarchy.from_labels([('a', 1), ('a', 2)]))), e.reg(sf.Series((3,), index=sf.IndexHierarchy.from_labels([('b', 1)]))))))
+    route('Series.from_pandas(own_data=True) then pandas object written', lambda e: _pandas_route(sf.Series, pd.Series(np.array([1, 2, 3]), index=list('abc')), True))
+    route('Series.from_pandas(own_data=False)', lambda e: _pandas_route(sf.Series, pd.Series(np.array([1.5, 2.5]), index=[10, 20]), False))
+    route('Series.from_pandas(nullable Int64)', lambda e: _pandas_route(sf.Series, pd.Series([1, None, 3], dtype='Int64'), False))
+    route('Series.from_pandas(string dtype)', lambda e: _pandas_route(sf.Series, pd.Series(['a', None, 'c'], dtype='string'), False))
+    route('Series.from_pandas(boolean dtype)', lambda e: _pandas_route(sf.Series, pd.Series([True, None, False], dtype='boolean'), True))
+    route('Frame.from_pandas(own_data=True)', lambda e: _pandas_route(sf.Frame, pd.DataFrame({'a': np.array([1, 2, 3]), 'b': np.array([1.5, 2.5, 3.5]), 'c': np.array([4, 5, 6])}), True))
+    route('Frame.from_pandas(own_data=False, consolidate_blocks=True)', lambda e: _pandas_route(sf.Frame, pd.DataFrame({'a': np.array([1, 2, 3]), 'b': np.array([4, 5, 6]), 'c': ['x', 'y', 'z']}), False, consolidate_blocks=True))
+    route('FrameGO.from_pandas(nullable / categorical columns)', lambda e: _pandas_route(sf.FrameGO, pd.DataFrame({'a': pd.array([1, None, 3], dtype='Int64'), 'b': pd.Categorical(['u', 'v', 'u'])}), False))
+    route('Index.from_pandas / IndexHierarchy.from_pandas', lambda e: (sf.Index.from_pandas(pd.Index(np.array([3, 4, 5]))), sf.IndexHierarchy.from_pandas(pd.MultiIndex.from_product((('a', 'b'), (1, 2)))),
+                                                                      sf.IndexDate.from_pandas(pd.DatetimeIndex(['2020-01-01', '2020-01-02']))))
+    route('IndexDate(datetime64[M] writeable ndarray) [astype + freeze]', lambda e: sf.IndexDate(e.arr(np.array(['2020-01', '2020-02'], dtype='datetime64[M]'))))
+    route('IndexYearMonth(datetime64[D] read-only ndarray)', lambda e: sf.IndexYearMonth(e.arr(_ro(np.array(['2020-01-05', '2020-02-07'], dtype='datetime64[D]')))))
+    route('Index(Series) / Index(2-D Frame values as tuples)', lambda e: (sf.Index(S(e)), sf.Index(e.reg(sf.Frame.from_records([(1, 'a'), (2, 'b')])))))
+    route('IndexYear.from_date_range / from_year_month_range / from_year_range', lambda e: (sf.IndexYear.from_date_range('2018-01-01', '2020-06-01'), sf.IndexYear.from_year_month_range('2018-01', '2019-03'), sf.IndexYear.from_year_range('2017', '2019', 2)))
+    route('IndexYearMonth.from_date_range / from_year_month_range / from_year_range', lambda e: (sf.IndexYearMonth.from_date_range('2018-01-01', '2018-04-15'), sf.IndexYearMonth.from_year_month_range('2018-11', '2019-02'), sf.IndexYearMonth.from_year_range('2018', '2019')))
+    route('IndexDateGO.from_date_range(step=2).append', lambda e: (lambda i: (i.append('2030-01-01'), i.values, i)[-1])(sf.IndexDateGO.from_date_range('2018-01-01', '2018-01-09', 2)))
+    route('IndexHierarchy.from_labels(reorder_for_hierarchy=True, index_constructors=)', lambda e: sf.IndexHierarchy.from_labels([('b', '2020-01-01'), ('a', '2020-01-02'), ('b', '2020-01-03')], reorder_for_hierarchy=True, index_constructors=(sf.Index, sf.IndexDate)))
+    route('IndexHierarchy.from_labels(continuation_token=)', lambda e: sf.IndexHierarchy.from_labels([('a', 1), (None, 2), ('b', 1)], continuation_token=None))
+    route('IndexHierarchy.from_labels((), depth_reference=2) and its arrays', lambda e: (lambda h: (h, h.values, h.values_at_depth(0), h.values_at_depth(1), h.positions))(sf.IndexHierarchy.from_labels((), depth_reference=2)))
+    route('IndexHierarchy.from_labels_delimited', lambda e: sf.IndexHierarchy.from_labels_delimited(("'a' 1", "'a' 2", "'b' 1"), delimiter=' '))
+    route('IndexHierarchy with tuple labels at outer depth: values_at_depth', lambda e: (lambda h: (h.values_at_depth(0), h.values_at_depth(1), h.values))(e.reg(sf.IndexHierarchy.from_labels([(('x', 1), 1), (('x', 1), 2), (('y', 2), 1)]))))
+    route('IndexHierarchyGO depth 3: append new outer / inner labels, extend, then arrays', lambda e: _ihgo3(sf))
+    route('ArrayGO(writeable object ndarray) / copy / values / append', lambda e: _arraygo(ArrayGO, e))
+    # ---- grow-only setitem value kinds
+    for vname, mk in (('scalar', lambda e: 5), ('string', lambda e: 'txt'), ('writeable 1-D ndarray', lambda e: e.arr(np.array([7, 8, 9]))), ('read-only 1-D ndarray', lambda e: e.arr(_ro(np.array([7, 8, 9])))),
+                      ('tuple', lambda e: (1, 2, 3)), ('generator', lambda e: (x for x in 'uvw')), ('Series reordered', lambda e: e.reg(sf.Series((1, 2, 3), index=tuple('cab')))),
+                      ('Series partial', lambda e: e.reg(sf.Series((1,), index=('b',)))), ('wrong length ndarray', lambda e: e.arr(np.array([1, 2]))), ('2-D ndarray', lambda e: e.arr(np.zeros((3, 1)))),
+                      ('Frame (must raise)', lambda e: F(e))):
+        route(f'FrameGO.__setitem__(label, {vname})', (lambda mk: lambda e: _setitem(sf, e, mk))(mk))
+    # ---- reindex: every branch of TypeBlocks.resize_blocks
+    for rname, kw in (('columns none in common', dict(columns=('y', 'z'))), ('columns partly new', dict(columns=('s', 'z', 'p'))), ('columns subset of unified frame', None),
+                      ('index none in common', dict(index=('y', 'z'))), ('index partly new', dict(index=('c', 'z', 'a'))), ('both none in common', dict(index=('y',), columns=('z',))),
+                      ('both subsets', dict(index=('c', 'a'), columns=('s', 'p'))), ('both partly new', dict(index=('c', 'z'), columns=('q', 'z', 'r'))),
+                      ('index new, columns subset', dict(index=('z', 'y'), columns=('q',))), ('both partly new, fill_value=0', dict(index=('c', 'z'), columns=('q', 'z'), fill_value=0))):
+        if kw is None:
+            route('Frame.reindex unified 2-D frame, column / both subsets', lambda e: (lambda f: (f.reindex(columns=(1,)), f.reindex(index=(1, 0), columns=(1, 0)), f.reindex(index=(1, 5))))(e.reg(sf.Frame(np.arange(6).reshape(3, 2)))))
+        else:
+            route(f'Frame.reindex {rname}', (lambda kw: lambda e: F(e).reindex(**kw))(kw))
+    route('Series.reindex partly new / fill_value', lambda e: (S(e).reindex(('c', 'z')), S(e).reindex(('z',), fill_value=0), S(e).reindex(('b', 'a'))))
+    # ---- shift / roll
+    for kw in (dict(index=1), dict(columns=-1), dict(index=-2, columns=1), dict(index=5), dict(index=1, columns=2, fill_value=0)):
+        route(f'Frame.shift({kw})', (lambda kw: lambda e: F(e).shift(**kw))(kw))
+    for kw in (dict(index=1), dict(columns=2), dict(index=-1, columns=-1, include_index=True, include_columns=True)):
+        route(f'Frame.roll({kw})', (lambda kw: lambda e: F(e).roll(**kw))(kw))
+    route('Series.shift / roll', lambda e: (S(e).shift(1), S(e).shift(-5, fill_value=0), S(e).roll(2, include_index=True)))
+    # ---- fillna families on a NaN frame whose runs cross block boundaries
+    for m in ('fillna_forward', 'fillna_backward'):
+        for kw in (dict(axis=1), dict(axis=1, limit=1), dict(axis=0, limit=1)):
+            route(f'Frame.{m}({kw})', (lambda m, kw: lambda e: getattr(FN(e), m)(**kw))(m, kw))
+    for m in ('fillna_leading', 'fillna_trailing'):
+        for ax in (0, 1):
+            route(f'Frame.{m}(0, axis={ax})', (lambda m, ax: lambda e: getattr(FN(e), m)(0, axis=ax))(m, ax))
+    route('Frame.fillna(Frame) / fillna(Series)? / Series.fillna(Series)', lambda e: (FN(e).fillna(e.reg(sf.Frame(np.zeros((3, 6)), index=tuple('abc'), columns=tuple('pqrstu')))),
+                                                                                     e.reg(sf.Series((1.0, nan, nan), index=tuple('abc'))).fillna(e.reg(sf.Series((8.0, 9.0), index=('b', 'c'))))))
+    # ---- clip with container bounds
+    route('Frame.clip(lower=Frame, upper=Series axis 0/1, ndarray)', lambda e: (lambda f: (f.clip(lower=e.reg(sf.Frame(np.ones((3, 2)), index=f.index, columns=f.columns))),
+                                                                                        f.clip(upper=e.reg(sf.Series((1, 2), index=f.columns)), axis=1), f.clip(lower=e.reg(sf.Series((1, 2, 3), index=f.index)), axis=0),
+                                                                                        _T(lambda: f.clip(lower=e.arr(np.ones((3, 2))), upper=3)), f.clip(lower=1, upper=3)))(e.reg(sf.Frame(np.arange(6).reshape(3, 2), index=tuple('abc'), columns=tuple('pq')))))
+    route('Series.clip(lower=Series, upper=ndarray)', lambda e: _T(lambda: S(e).clip(lower=e.reg(sf.Series((2, 2, 2), index=tuple('abc')))), lambda: S(e).clip(upper=e.arr(np.array([2, 2, 2]))), lambda: S(e).clip(lower=2)))
+    # ---- astype
+    route('Frame.astype(dict / per-column list) and astype[cols](dtype)', lambda e: (F(e).astype({'p': float, 'r': str}), F(e).astype((float, float, object, object)), F(e).astype[['q', 'r']](object), F(e).astype['p':'q'](np.uint8)))
+    # ---- binary operators: every operand kind, reflected too
+    route('Frame op Series / 1-D ndarray / 2-D ndarray / Frame other layout / scalar, reflected', lambda e: (lambda f: _T(lambda: f + e.reg(sf.Series((1, 2), index=tuple('pq'))), lambda: f * e.arr(np.array([1, 2])), lambda: e.arr(np.array([1, 2])) * f, lambda: 2 * f, lambda: 2 - f, lambda: 2 / f, lambda: 7 // f, lambda: 7 % f,
+        lambda: f - e.arr(np.ones((3, 2))), lambda: 2 ** f, lambda: f ** 2, lambda: f == e.reg(sf.Frame(np.arange(6).reshape(3, 2), index=tuple('abc'), columns=tuple('pq'))), lambda: f @ e.arr(np.ones((2, 2))),
+        lambda: e.arr(np.ones((2, 3))) @ f, lambda: f.__rmatmul__(e.arr(np.ones((2, 3)))), lambda: f @ f.T, lambda: -f, lambda: ~(f > 1), lambda: abs(f), lambda: (f > 1) & (f < 5), lambda: (f > 1) | True, lambda: True ^ (f > 1)))(
+        e.reg(sf.Frame.from_records([(1, 2.5), (3, 4.5), (5, 6.5)], index=tuple('abc'), columns=tuple('pq')))))
+    route('Series op ndarray / Series unaligned / reflected / matmul', lambda e: _T(lambda: S(e) + e.arr(np.array([1, 2, 3])), lambda: e.arr(np.array([1, 2, 3])) - S(e), lambda: S(e).__rsub__(e.arr(np.array([1, 2, 3]))), lambda: 5 - S(e), lambda: 7 // S(e),
+        lambda: S(e) * e.reg(sf.Series((1, 2), index=('b', 'z'))), lambda: S(e) @ S(e), lambda: S(e) @ e.arr(np.ones((3, 2))), lambda: S(e).__rmatmul__(e.arr(np.ones((2, 3)))), lambda: -S(e), lambda: ~(S(e) > 1)))
+    route('Index / IndexHierarchy unary and binary operators', lambda e: (lambda i, h: (-i, abs(i), i + 1, 1 - i, i == i, i * e.arr(np.array([1, 2, 3])), -h, abs(h), h + 1, h == h, h * e.arr(np.array([[1, 2]] * 4))))(
+        e.reg(sf.Index((3, 1, 2))), e.reg(sf.IndexHierarchy.from_product((1, 2), (3, 4)))))
+    route('IndexDate - / + timedelta, IndexDate == strings', lambda e: (lambda i: (i + 1, i - np.timedelta64(1, 'D'), i == '2020-01-01', i < np.datetime64('2020-01-02')))(e.reg(sf.IndexDate(('2020-01-01', '2020-01-02')))))
+    # ---- set operations: equal operands, lists, sets, arrays, hierarchies (util._ufunc_set_1d / _ufunc_set_2d)
+    route('Index set ops: identical / list / set / writeable ndarray / empty / other dtype', lambda e: (lambda i: (i.union(i), i.intersection(i), i.difference(i), i.union(['z', 'a']), i.intersection({'a', 'q'}), i.difference(e.arr(np.array(['a']))),
+        i.union(sf.Index(())), i.difference(sf.Index((1, 2))), i.union(sf.Index((1, 2))), i.intersection(sf.IndexGO(('c', 'b')))))(e.reg(sf.Index(tuple('abc')))))
+    route('IndexHierarchy set ops: identical / reordered / disjoint / list of tuples / 2-D ndarray / empty', lambda e: (lambda h, g: (h.union(h), h.intersection(h), h.difference(h), h.union(g), h.intersection(g), h.difference(g), g.difference(h),
+        h.union([('z', 9)]), h.intersection(e.arr(np.array([['a', 1], ['q', 5]], dtype=object))), h.difference(sf.IndexHierarchy.from_labels((), depth_reference=2)), h.isin([('a', 1), ('q', 5)]), h.isin(())))(
+        e.reg(sf.IndexHierarchy.from_product(('a', 'b'), (1, 2))), e.reg(sf.IndexHierarchy.from_labels([('b', 2), ('c', 1)]))))
+    route('IndexDate set ops', lambda e: (lambda i: (i.union(sf.IndexDate(('2020-01-02', '2020-01-05'))), i.intersection(('2020-01-01',)), i.difference(i)))(e.reg(sf.IndexDate(('2020-01-01', '2020-01-02')))))
+    # ---- loc_searchsorted with values past the end (fill_value branch)
+    route('loc_searchsorted past the end: Index / IndexDate / Series / IndexHierarchy', lambda e: (e.reg(sf.Index((10, 20, 30))).loc_searchsorted([5, 25, 99]), e.reg(sf.Index((10, 20, 30))).loc_searchsorted(e.arr(np.array([99, 100])), fill_value=-1),
+        e.reg(sf.Index((10, 20, 30))).loc_searchsorted(99), e.reg(sf.IndexDate(('2020-01-01', '2020-01-03'))).loc_searchsorted(['2020-01-02', '2021-01-01'], side_left=False),
+        e.reg(sf.Series((10, 20, 30), index=tuple('abc'))).loc_searchsorted([5, 99], fill_value=None), e.reg(sf.Series((10, 20, 30), index=tuple('abc'))).iloc_searchsorted(e.arr(np.array([5, 99])))))
+    # ---- accessors on object cells and 2-D blocks
+    route('via_dt on object dates (Series / Frame 2-D block / Index)', lambda e: (lambda s, f: (s.via_dt.year, s.via_dt.weekday(), s.via_dt.isoformat(), s.via_dt.strftime('%Y'), f.via_dt.month, f.via_dt.day, f.via_dt.timetuple(), f.via_dt.isoformat()))(
+        e.reg(sf.Series([__import__('datetime').date(2020, 1, 2), __import__('datetime').date(2021, 3, 4)], dtype=object)),
+        e.reg(sf.Frame(np.array([['2020-01-02', '2021-03-04'], ['2019-05-06', '2018-07-08']], dtype='datetime64[D]')))))
+    route('via_dt.fromisoformat / strptime / strpdate on str Frame and Series', lambda e: (lambda f, s: (f.via_dt.fromisoformat(), s.via_dt.fromisoformat(), s.via_dt.strptime('%Y-%m-%d'), f.via_dt.strpdate('%Y-%m-%d')))(
+        e.reg(sf.Frame(np.array([['2020-01-02', '2021-03-04'], ['2019-05-06', '2018-07-08']]))), e.reg(sf.Series(('2020-01-02', '2021-03-04')))))
+    route('via_str startswith / endswith with tuples, on Frame 2-D block, Series, Index, IndexHierarchy', lambda e: (lambda f, s, i, h: _T(lambda: f.via_str.startswith(('a', 'b')), lambda: f.via_str.endswith(('c', 'z')), lambda: f.via_str.startswith('a'), lambda: f.via_str.endswith('z'), lambda: s.via_str.endswith(('b',)),
+        lambda: i.via_str.startswith(('a', 'q')), lambda: i.via_str.endswith('c'), lambda: h.via_str.endswith(('a', '1')), lambda: h.via_str.startswith('a'), lambda: f.via_str.len(), lambda: f.via_str.upper(), lambda: f.via_str.center(5),
+        lambda: h.via_str.zfill(3), lambda: f.via_str.find('a'), lambda: f.via_str.count('a'), lambda: f.via_str.replace('a', 'b'), lambda: s.via_str.partition('b'), lambda: f.via_str.isdigit(), lambda: f.via_str.encode().via_str.decode()))(
+        e.reg(sf.Frame(np.array([['ab', 'bc'], ['cz', 'az']]))), e.reg(sf.Series(('ab', 'cb'))), e.reg(sf.Index(('ab', 'qc'))), e.reg(sf.IndexHierarchy.from_product(('a', 'b'), (1, 2)))))
+    route('Frame.via_T operators', lambda e: (lambda f: (f.via_T + e.reg(sf.Series((1, 2, 3), index=f.index)), f.via_T * e.reg(sf.Series((1, 2, 3), index=f.index)), 1 - (f.via_T - e.reg(sf.Series((1, 2, 3), index=f.index)))))(
+        e.reg(sf.Frame(np.arange(6).reshape(3, 2), index=tuple('abc'), columns=tuple('pq')))))
+    # ---- bloc assignment with a Frame that does not cover the key (key copied, not written)
+    route('Frame.assign.bloc[read-only / writeable mask](partial Frame)', lambda e: (lambda f: (f.assign.bloc[e.arr(_ro(np.array([[True, False], [True, True], [False, True]])))](e.reg(sf.Frame(np.full((2, 1), 9), index=('a', 'b'), columns=('p',)))),
+        f.assign.bloc[e.arr(np.array([[True, False], [True, True], [False, True]]))](e.reg(sf.Frame(np.full((2, 2), 9), index=('a', 'z'), columns=('p', 'q')))),
+        f.assign.bloc[f > 2](-1), f.assign.bloc[f > 2](e.arr(np.full((3, 2), -1)))))(e.reg(sf.Frame(np.arange(6).reshape(3, 2), index=tuple('abc'), columns=tuple('pq')))))
+    # ---- unsigned / bytes / timedelta / 1-wide 2-D blocks / 2-D block not first
+    route('unsigned, bytes, timedelta64, 1-wide 2-D block not in first position: selections, transposes, reductions', lambda e: (lambda f: (f.iloc[:, 1], f.iloc[[2, 0]], f.T, f.iloc[0], f.loc['a', ['q', 's']], f.drop.iloc[:, 1], f.sum(), f.astype(object), f.sort_values('p', ascending=False), f.values, f.iloc[:, 1:3].values,
+        tuple(f.iter_array(axis=0)), tuple(f.iter_array(axis=1)), f.to_pairs(0)))(
+        e.reg(sf.Frame(TypeBlocks.from_blocks([_ro(np.array([1, 200, 3], dtype=np.uint8)), _ro(np.array([[7], [8], [9]], dtype=np.uint16)), _ro(np.array([b'a', b'bc', b'd'])), _ro(np.array([1, 2, 3], dtype='timedelta64[s]'))]),
+                       index=tuple('abc'), columns=tuple('pqrs'), own_data=True))))
+    # ======== second batch (second coverage pass)
+    def H2(e):
+        return e.reg(sf.IndexHierarchy.from_product((1, 2), (3, 4)))
+
+    route('numeric IndexHierarchy set ops (2-D non-object path): same values other dtype, overlap, disjoint, empty operands, list of tuples', lambda e: (lambda h, g, hf, z: _T(
+        lambda: h.union(g), lambda: h.intersection(g), lambda: h.difference(g), lambda: g.difference(h), lambda: h.union(hf), lambda: h.intersection(hf), lambda: h.difference(hf),
+        lambda: h.union(z), lambda: h.intersection(z), lambda: h.difference(z), lambda: z.difference(h), lambda: z.union(h), lambda: z.intersection(h),
+        lambda: h.union([(9, 9)]), lambda: h.intersection([(1, 3), (7, 7)]), lambda: h.difference(e.arr(np.array([[1, 3]]))), lambda: h.union(e.arr(np.array([[1, 3], [8, 8]]))),
+        lambda: h.isin([(1, 3)]), lambda: h.isin(e.arr(np.array([[1, 3], [2, 4]])))))(
+        H2(e), e.reg(sf.IndexHierarchy.from_labels([(2, 4), (5, 6)])), e.reg(sf.IndexHierarchy.from_product((1.0, 2.0), (3.0, 4.0))), e.reg(sf.IndexHierarchy.from_labels((), depth_reference=2))))
+    route('Index set ops: equal values other object / other dtype, empty operands, sorted / unsorted results', lambda e: (lambda i, j, k, z: _T(
+        lambda: i.union(j), lambda: i.intersection(j), lambda: i.difference(j), lambda: i.difference(k), lambda: i.union(k), lambda: i.intersection(k), lambda: i.intersection(z), lambda: z.difference(i),
+        lambda: z.union(i), lambda: i.union(z), lambda: i.difference(z), lambda: i.union(e.arr(np.array([3, 9]))), lambda: i.intersection((x for x in (1, 9))), lambda: i.difference(range(2))))(
+        e.reg(sf.Index((3, 1, 2))), e.reg(sf.Index((3, 1, 2))), e.reg(sf.Index((3.0, 1.0, 2.0))), e.reg(sf.Index(()))))
+    route('Frame.isin / Series.isin / Index.isin with lists, sets, arrays, on 2-D blocks and object blocks', lambda e: _T(lambda: F(e).isin((1, 'x', 1.5)), lambda: F(e).isin({3, 4}), lambda: F(e).isin(e.arr(np.array([1, 2]))), lambda: F(e).isin(()),
+        lambda: e.reg(sf.Frame(np.array([[1, 'a'], [None, 2.5]], dtype=object))).isin((1, None)), lambda: S(e).isin(e.arr(np.array([1, 9]))), lambda: S(e).isin(frozenset((3,))), lambda: e.reg(sf.Index((1, 2))).isin([2])))
+    route('IndexHierarchy.loc_searchsorted: inside, past the end, fill_value, side', lambda e: (lambda h: _T(lambda: h.loc_searchsorted((1, 4)), lambda: h.loc_searchsorted([(1, 3), (9, 9)]), lambda: h.loc_searchsorted([(9, 9)], fill_value=None),
+        lambda: h.loc_searchsorted((9, 9)), lambda: h.loc_searchsorted([(0, 0), (2, 4)], side_left=False), lambda: h.iloc_searchsorted([(1, 4), (9, 9)])))(H2(e)))
+    route('IndexHierarchy.level_drop / level_add / rehierarch / flat / relabel_at_depth on depth 3', lambda e: (lambda h: _T(lambda: h.level_drop(1), lambda: h.level_drop(2), lambda: h.level_drop(-1), lambda: h.level_drop(-2), lambda: h.level_drop(3), lambda: h.level_drop(0),
+        lambda: h.level_add('L'), lambda: h.rehierarch((2, 0, 1)), lambda: h.flat(), lambda: h.rehierarch((0, 2, 1)).level_drop(1), lambda: h.iloc[1:].level_drop(1), lambda: h.iloc[[0]].level_drop(-2)))(
+        e.reg(sf.IndexHierarchy.from_labels([('a', 1, 'x'), ('a', 2, 'y'), ('b', 1, 'z')]))))
+    route('IndexHierarchyGO appends: new outer, new middle under old outer, new leaf, duplicate (raises), wrong depth (raises), after reading values', lambda e: _ihgo_appends(sf))
+    route('IndexHierarchy.from_labels: ndarray rows, generator, depth 1 error, unsorted (raises), name, from_index_items, from_tree, from_names', lambda e: _T(
+        lambda: sf.IndexHierarchy.from_labels(e.arr(np.array([[1, 3], [1, 4], [2, 3]]))), lambda: sf.IndexHierarchy.from_labels((x for x in (('a', 1), ('a', 2)))), lambda: sf.IndexHierarchy.from_labels([('a',), ('b',)]),
+        lambda: sf.IndexHierarchy.from_labels([('a', 1), ('b', 1), ('a', 2)]), lambda: sf.IndexHierarchy.from_labels([('a', 1), ('b', 1)], name=('x', 'y')),
+        lambda: sf.IndexHierarchy.from_index_items((('a', sf.Index((1, 2))), ('b', sf.IndexGO((3,))))), lambda: sf.IndexHierarchy.from_tree({'a': (1, 2), 'b': {'x': (1,), 'y': (2,)}} if False else {'a': (1, 2), 'b': (1,)}),
+        lambda: sf.IndexHierarchy.from_names(('p', 'q')), lambda: sf.IndexHierarchy.from_labels([('a', 1, 'x')], depth_reference=3), lambda: sf.IndexHierarchy.from_product(sf.IndexDate(('2020-01-01',)), e.arr(np.array([1, 2])))))
+    route('Series(...) argument kinds, valid and failing: dict, Series + dtype, element, str, generator, set, range, own_index without index, wrong index length', lambda e: _T(
+        lambda: sf.Series({'a': 1}), lambda: sf.Series(S(e), dtype=float), lambda: sf.Series(S(e), dtype=np.int64), lambda: sf.Series(5), lambda: sf.Series('ab'), lambda: sf.Series((x for x in range(3))), lambda: sf.Series({1, 2}),
+        lambda: sf.Series(range(3), index=tuple('abc')), lambda: sf.Series((1, 2), own_index=True), lambda: sf.Series((1, 2), index=('a',)), lambda: sf.Series(e.arr(np.array([1, 2])), dtype=float),
+        lambda: sf.Series(S(e), index=('x', 'y', 'z')), lambda: sf.Series(e.arr(np.array([[1, 2]]))), lambda: sf.Series((1, 2), index=sf.IndexGO(('a', 'b'))), lambda: sf.Series.from_dict({'a': 1, 'b': 2}, dtype=float),
+        lambda: sf.Series.from_items(zip('ab', (1, 2)), dtype=object), lambda: sf.Series.from_element('x', index=range(2))))
+    route('Frame(...) argument kinds, valid and failing: Frame (+ index / columns / constructors), FrameGO, dict, Series, list, TypeBlocks with and without own_data, wrong shapes', lambda e: _T(
+        lambda: sf.Frame(F(e)), lambda: sf.Frame(F(e), index=(1, 2, 3)), lambda: sf.Frame(F(e), columns=tuple('wxyz')), lambda: sf.Frame(F(e), columns_constructor=sf.IndexGO), lambda: sf.FrameGO(F(e)), lambda: sf.Frame(F(e, sf.FrameGO)),
+        lambda: sf.Frame({'a': (1, 2)}), lambda: sf.Frame(S(e)), lambda: sf.Frame([(1, 2)]), lambda: sf.Frame(F(e)._blocks), lambda: sf.Frame(e.arr(np.arange(6).reshape(3, 2)), index=(1, 2)), lambda: sf.Frame(e.arr(np.arange(6).reshape(3, 2)), columns=(1,)),
+        lambda: sf.Frame(e.arr(np.arange(8).reshape(2, 2, 2))), lambda: sf.Frame(index=(1, 2), columns=('a',)), lambda: sf.Frame(columns=('a', 'b')), lambda: sf.Frame(e.arr(np.arange(3)), index=tuple('abc'), columns=('v',)),
+        lambda: sf.Frame(e.arr(np.arange(6).reshape(3, 2)), index=sf.IndexGO((1, 2, 3))), lambda: sf.Frame(e.arr(np.arange(6).reshape(3, 2)), columns=sf.IndexGO((1, 2))), lambda: sf.Frame(e.arr(np.arange(6).reshape(3, 2)), name=[1])))
+    route('Frame.from_records: dicts, named tuples, ndarray rows (writeable), generator, dtypes map, empty + columns, Series rows', lambda e: _T(
+        lambda: sf.Frame.from_records([{'a': 1, 'b': 'x'}, {'a': 2, 'b': 'y'}]), lambda: sf.Frame.from_records([__import__('collections').namedtuple('P', 'x y')(1, 2)] * 2), lambda: sf.Frame.from_records([e.arr(np.array([1, 2])), e.arr(np.array([3, 4]))]),
+        lambda: sf.Frame.from_records(e.arr(np.arange(6).reshape(3, 2))), lambda: sf.Frame.from_records(((i, str(i)) for i in range(3)), columns=('a', 'b'), dtypes={'a': float}), lambda: sf.Frame.from_records((), columns=('a',), dtypes=(int,)),
+        lambda: sf.Frame.from_records([S(e), S(e)]), lambda: sf.Frame.from_records([(1, 2), (3,)]), lambda: sf.Frame.from_records([(1, 2)], dtypes=(float, str), consolidate_blocks=True),
+        lambda: sf.Frame.from_dict_records([{'a': 1}, {'a': 2, 'b': 3}]), lambda: sf.Frame.from_dict_records([{'a': 1}], dtypes={'a': float}, fill_value=0), lambda: sf.Frame.from_records_items((('x', (1, 2)), ('y', (3, 4)))),
+        lambda: sf.Frame.from_dict_records_items((('x', {'a': 1}), ('y', {'a': 2})))))
+    route('Frame.from_items / from_fields / from_dict / from_element_items / from_elements with arrays, Series, Frames(!), dtypes, fill_value, consolidate_blocks', lambda e: _T(
+        lambda: sf.Frame.from_items((('a', e.arr(np.array([1, 2]))), ('b', e.arr(_ro(np.array([3, 4])))))), lambda: sf.Frame.from_items((('a', e.reg(sf.Series((1, 2), index=('x', 'y')))), ('b', e.reg(sf.Series((3,), index=('y',))))), index=('x', 'y'), fill_value=0),
+        lambda: sf.Frame.from_items((('a', (1, 2)), ('b', ('u', 'v'))), dtypes={'a': float}, consolidate_blocks=True), lambda: sf.Frame.from_items((('a', F(e)),)), lambda: sf.Frame.from_items((('a', e.arr(np.arange(4).reshape(2, 2))),)),
+        lambda: sf.Frame.from_fields((e.arr(np.array([1, 2])), e.arr(np.array([3., 4.]))), columns=('a', 'b')), lambda: sf.Frame.from_fields(((1, 2), (3, 4)), dtypes=(float, object), consolidate_blocks=True),
+        lambda: sf.Frame.from_fields((e.arr(np.arange(4).reshape(2, 2)),)), lambda: sf.Frame.from_fields((x for x in ((1, 2), ('a', 'b'))), index=('r', 's')),
+        lambda: sf.Frame.from_dict({'a': e.arr(np.array([1, 2])), 'b': (3, 4)}), lambda: sf.FrameGO.from_dict({'a': e.reg(sf.Series((1, 2)))}, dtypes=float),
+        lambda: sf.Frame.from_element_items((((0, 0), 1), ((1, 1), 2)), index=(0, 1), columns=(0, 1), dtype=float), lambda: sf.Frame.from_element_items((((0, 0), 1), ((0, 1), 'a'), ((1, 0), 2), ((1, 1), 'b')), index=(0, 1), columns=(0, 1), dtype=(int, str), axis=0),
+        lambda: sf.Frame.from_element_items((((0, 0), 1), ((1, 0), 2), ((0, 1), 'a'), ((1, 1), 'b')), index=(0, 1), columns=(0, 1), dtype=(int, str), axis=1), lambda: sf.Frame.from_element(0, index=(1, 2), columns=('a',), dtype=np.uint8)))
+    route('Frame.from_concat: axis 0 / 1, union False, Series members, hierarchical index, mixed layouts, empty, names', lambda e: _T(
+        lambda: sf.Frame.from_concat((F(e), F(e).relabel(index=tuple('xyz'))), axis=0), lambda: sf.Frame.from_concat((F(e), F(e).relabel(columns=tuple('wxyz'))), axis=1), lambda: sf.Frame.from_concat((F(e), F(e).iloc[:, :2].relabel(index=tuple('xyz'))), axis=0, union=False),
+        lambda: sf.Frame.from_concat((F(e), S(e).rename('t')), axis=1), lambda: sf.Frame.from_concat((S(e).rename('x'), S(e).rename('y')), axis=0, columns=tuple('abc')), lambda: sf.Frame.from_concat((F(e), F(e)), axis=0, index=sf.IndexAutoFactory),
+        lambda: sf.Frame.from_concat((F(e), F(e)), axis=1, columns=sf.IndexAutoFactory), lambda: sf.Frame.from_concat((F(e).iloc[:, :2], F(e).iloc[:, :2].astype(float).relabel(index=tuple('xyz')))), lambda: sf.Frame.from_concat(()),
+        lambda: sf.Frame.from_concat_items((('u', F(e)), ('v', F(e))), axis=0), lambda: sf.Frame.from_concat_items((('u', F(e)), ('v', F(e))), axis=1), lambda: sf.Frame.from_concat((F(e), F(e, sf.FrameGO)), axis=0, index=range(6), name='n'),
+        lambda: sf.Frame.from_concat((F(e), FN(e)), axis=1)))
+    route('Frame.from_delimited / from_csv / from_tsv / from_json / from_sql: depths, dtypes, consolidate', lambda e: _T(
+        lambda: sf.Frame.from_csv(io.StringIO('a,b,c\n1,2,x\n3,4,y\n'), index_depth=1, dtypes={'b': float}), lambda: sf.Frame.from_csv(io.StringIO('i,j,a,b\nx,1,1,2\nx,2,3,4\n'), index_depth=2, consolidate_blocks=True),
+        lambda: sf.Frame.from_csv(io.StringIO(',a,a\n,1,2\nx,1,2\ny,3,4\n'), index_depth=1, columns_depth=2), lambda: sf.Frame.from_tsv(io.StringIO('a\tb\n1\t2\n')), lambda: sf.Frame.from_delimited(io.StringIO('a|b\n1|2\n'), delimiter='|', columns_depth=1),
+        lambda: sf.Frame.from_json('[{"a": 1, "b": "x"}, {"a": 2, "b": "y"}]'), lambda: sf.Frame.from_csv(io.StringIO('a,b\n'), columns_depth=1), lambda: _from_sql(sf)))
+    route('Frame.sort_values / sort_index / sort_columns: multiple keys, axis 0, descending, key=, hierarchical', lambda e: _T(lambda: F(e).sort_values(['p', 'q']), lambda: F(e).sort_values('p', ascending=False), lambda: F(e).iloc[:, :3].sort_values('a', axis=0),
+        lambda: F(e).iloc[:, :3].sort_values(['a', 'b'], axis=0, ascending=False), lambda: F(e).sort_values('r', key=lambda s: -s.fillna(0)), lambda: F(e).sort_index(ascending=False), lambda: F(e).sort_columns(key=lambda i: i.values[::-1]),
+        lambda: S(e).sort_values(key=lambda s: -s), lambda: S(e).sort_values(ascending=False), lambda: S(e).sort_index(key=lambda i: i.via_str.upper()), lambda: H2(e).sort(ascending=False), lambda: e.reg(sf.Index((3, 1, 2))).sort(key=lambda i: -i.values)))
+    route('insert_before / insert_after with Series / Frame, on Frame and Series', lambda e: _T(lambda: F(e).insert_before('q', e.reg(sf.Series((7, 8, 9), index=tuple('abc'), name='n'))), lambda: F(e).insert_after('s', e.reg(sf.Frame(np.zeros((3, 2)), index=tuple('abc'), columns=('u', 'v')))),
+        lambda: F(e).insert_after('p', e.reg(sf.Series((7,), index=('a',), name='n')), fill_value=0), lambda: F(e).insert_before('zz', S(e)), lambda: S(e).insert_before('b', e.reg(sf.Series((9,), index=('z',)))), lambda: S(e).insert_after('c', S(e)), lambda: S(e).insert_after('a', 5)))
+    route('joins and pivots', lambda e: (lambda l, r: _T(lambda: l.join_inner(r, left_columns='k', right_columns='k', left_template='l{}', right_template='r{}'), lambda: l.join_left(r, left_columns='k', right_columns='k', fill_value=0, left_template='l{}', right_template='r{}'),
+        lambda: l.join_right(r, left_columns='k', right_columns='k', left_template='l{}', right_template='r{}'),
+        lambda: l.join_outer(r, left_depth_level=0, right_depth_level=0, left_template='l{}', right_template='r{}'), lambda: l.join_left(r, left_depth_level=0, right_depth_level=0, composite_index=False, left_template='l{}', right_template='r{}'),
+        lambda: l.pivot('k', 'v'), lambda: l.pivot('k', 'v', 'w', func=np.sum), lambda: l.pivot_stack(), lambda: l.set_index_hierarchy(['k', 'v']).pivot_unstack(), lambda: l.iter_group(['k', 'v']).apply(lambda g: g.shape[0]), lambda: tuple(l.iter_group('k', axis=0)),
+        lambda: tuple(l.T.iter_group('a', axis=1)), lambda: tuple(l.iter_group_labels(0)), lambda: l.drop_duplicated(), lambda: l.duplicated(axis=1), lambda: l.unique(axis=0), lambda: l.unique(axis=1)))(
+        e.reg(sf.Frame.from_records([(1, 'a', 1.5), (2, 'b', 2.5), (1, 'a', 3.5)], columns=('k', 'v', 'w'), index=tuple('abc'))), e.reg(sf.Frame.from_records([(1, 10), (3, 30)], columns=('k', 'z'), index=tuple('ax')))))
+    route('assign with Frames / arrays over 2-D blocks and row keys (by-blocks paths)', lambda e: (lambda f, v: _T(lambda: f.assign.iloc[[0, 1], [0, 1]](v.iloc[:2, :2]), lambda: f.assign.iloc[[0, 2], 1:3](v), lambda: f.assign.loc[['c', 'a'], ['s', 'p']](v), lambda: f.assign.iloc[0, :](v.iloc[0]),
+        lambda: f.assign.iloc[:, 1](e.arr(np.array([7, 8, 9]))), lambda: f.assign.iloc[1:, [0, 3]](e.arr(np.full((2, 2), -1))), lambda: f.assign[['q', 'r']](v), lambda: f.assign['p'](S(e)), lambda: f.assign.loc['a':'b', 'q':'r'].apply(lambda x: x * 0),
+        lambda: f.assign.bloc[f.iloc[:, :3] > 2](v), lambda: f.assign.bloc[e.reg(sf.Frame(np.full((3, 4), True), index=f.index, columns=f.columns))](v), lambda: f.mask.iloc[[0, 2], 1:3], lambda: f.masked_array.loc['a', 'p':'q'], lambda: f.drop.iloc[[0, 2], 1:3], lambda: f.drop.loc['a', ['s', 'p']]))(
+        F(e), e.reg(sf.Frame(np.full((3, 4), 9), index=tuple('abc'), columns=tuple('pqrs')))))
+    route('reductions: object / empty / 2-D blocks / bool / skipna False / both axes', lambda e: _T(lambda: F(e).sum(axis=1), lambda: F(e).iloc[:, :3].mean(axis=1, skipna=False), lambda: F(e).max(axis=0), lambda: F(e).iloc[:, :3].cumsum(axis=1), lambda: (F(e).iloc[:, :2] > 2).all(axis=1), lambda: (F(e).iloc[:, :2] > 2).any(axis=0, skipna=False),
+        lambda: e.reg(sf.Frame(index=(1, 2))).sum(), lambda: e.reg(sf.Frame(columns=('a',))).sum(axis=1), lambda: e.reg(sf.Frame.from_records([(None, True), (nan, False)])).all(), lambda: e.reg(sf.Frame.from_records([(None, True), (nan, False)])).any(skipna=False),
+        lambda: F(e).iloc[:, :3].std(ddof=1), lambda: F(e).iloc[:, :3].median(axis=1), lambda: F(e).iloc[:, :3].cumprod(skipna=False), lambda: F(e).count(axis=1), lambda: F(e).iloc[:, :3].cov(), lambda: F(e).loc_max() if hasattr(sf.Frame, 'loc_max') else None,
+        lambda: H2(e).sum(), lambda: H2(e).max(axis=1), lambda: H2(e).cumsum(), lambda: e.reg(sf.Index((1, 2))).mean(), lambda: e.reg(sf.Index(('a', 'b'))).max()))
+    route('equals branches: other class, other name, other dtype, NaN positions, other shape, non-container', lambda e: _T(lambda: F(e).equals(F(e, sf.FrameGO), compare_class=True), lambda: F(e).equals(F(e).rename('z'), compare_name=True), lambda: F(e).equals(F(e).astype(object), compare_dtype=True),
+        lambda: F(e).equals(5), lambda: F(e).equals(F(e).iloc[:2]), lambda: FN(e).equals(FN(e), skipna=False), lambda: FN(e).equals(FN(e).fillna(0)), lambda: FN(e).fillna(0).equals(FN(e)), lambda: S(e).equals(S(e).astype(float), compare_dtype=True),
+        lambda: S(e).equals(S(e).relabel(tuple('xyz'))), lambda: H2(e).equals(H2(e).rename('n'), compare_name=True), lambda: H2(e).equals(e.reg(sf.IndexHierarchy.from_product((1, 2), (3, 5)))), lambda: H2(e).equals(H2(e).values), lambda: F(e)._blocks.equals(F(e)._blocks.consolidate())))
+    route('relabel / rehierarch / relabel_shift_out with hierarchies, callables, mappings, IndexAutoFactory', lambda e: (lambda f: _T(lambda: f.relabel(index=lambda x: x[::-1]), lambda: f.relabel(columns={'p': 'P'}), lambda: f.relabel(index=sf.IndexAutoFactory, columns=sf.IndexAutoFactory),
+        lambda: f.relabel(index=e.reg(sf.IndexHierarchy.from_product(('u',), (1, 2, 3, 4)))), lambda: f.relabel_shift_out([0, 1]), lambda: f.relabel_shift_out(1), lambda: f.T.relabel_shift_out(0, axis=1), lambda: f.rehierarch(index=(1, 0)), lambda: f.relabel_flat(index=True),
+        lambda: f.relabel_level_drop(index=1), lambda: f.relabel_level_add(columns='L').relabel_shift_out(0, axis=1), lambda: f.unset_index(names=('i', 'j')), lambda: f.unset_index(consolidate_blocks=True), lambda: f.set_index('p', drop=True, index_constructor=sf.IndexGO)))(
+        e.reg(sf.Frame(np.arange(8).reshape(4, 2), index=sf.IndexHierarchy.from_product(('a', 'b'), (1, 2)), columns=('p', 'q')))))
+    return R
+
+
+def _from_sql(sf):
+    import sqlite3
+    conn = sqlite3.connect(':memory:')
+    conn.execute('create table t (a integer, b text, c real)')
+    conn.executemany('insert into t values (?, ?, ?)', [(1, 'x', 1.5), (2, 'y', 2.5)])
+    try:
+        return (sf.Frame.from_sql('select * from t', connection=conn), sf.Frame.from_sql('select * from t', connection=conn, index_depth=1, dtypes={'c': str}),
+                sf.Frame.from_sql('select * from t', connection=conn, index_depth=2, columns_depth=1, consolidate_blocks=True))
+    finally:
+        conn.close()
+
+
+def _ihgo_appends(sf):
+    out = []
+    for depth3 in (False, True):
+        h = sf.IndexHierarchyGO.from_labels([('a', 1, 'x'), ('a', 1, 'y'), ('a', 2, 'x')] if depth3 else [('a', 1), ('a', 2)])
+        static = sf.IndexHierarchy(h)
+        snap = observe_container(static)
+        labels = ([('a', 2, 'y'), ('a', 3, 'x'), ('b', 1, 'x'), ('b', 1, 'y'), ('a', 1, 'x'), ('c', 1), ('c', 1, 'x', 'y'), ('b', 2, 'x')] if depth3
+                  else [('a', 3), ('b', 1), ('b', 2), ('a', 1), ('c',), ('c', 1, 2), ('c', 1)])
+        gained = []
+        for k, lab in enumerate(labels):
+            try:
+                h.append(lab)
+                gained.append(lab)
+            except Exception:  # noqa: duplicates and wrong depths must raise and leave everything as it was
+                pass
+            if k % 3 == 1:
+                out.append(h.values)
+        out += [h, h.values, h.positions, h.values_at_depth(0), sf.IndexHierarchy(h), h.copy(), h.iloc[1:]]
+        if observe_container(static) != snap or probe_absent(static, gained):
+            raise AssertionError('C01-VIOLATION: a static IndexHierarchy built from an IndexHierarchyGO changed when the source grew')
+        if [tuple(x) for x in h.values.tolist()][-len(gained):] != [tuple(g) for g in gained]:
+            pass    # (append order is C09's business)
+    return tuple(out)
+
+
+def _pandas_route(cls, pobj, own_data, **kw):
+    '''from_pandas, then the pandas object is written (where pandas permits): nothing may show through.'''
+    out = cls.from_pandas(pobj, own_data=own_data, **kw)
+    before = observe_container(out)
+    if own_data:
+        return out      # explicit ownership transfer (stated exclusion): the pandas object is not used afterwards
+    import pandas as pd
+    try:
+        with pd.option_context('mode.chained_assignment', None):
+            if isinstance(pobj, pd.DataFrame):
+                for c in pobj.columns:
+                    try:
+                        pobj.iloc[0, list(pobj.columns).index(c)] = pobj.iloc[-1, list(pobj.columns).index(c)]
+                    except Exception:  # noqa
+                        pass
+            else:
+                pobj.iloc[0] = pobj.iloc[-1]
+    except Exception:  # noqa
+        pass
+    if observe_container(out) != before:
+        raise AssertionError('C01-VIOLATION: a write to the pandas object after from_pandas shows through the container')
+    return out
+
+
+def _ihgo3(sf):
+    h = sf.IndexHierarchyGO.from_labels([('a', 1, 'x'), ('a', 1, 'y'), ('a', 2, 'x')])
+    static = sf.IndexHierarchy(h)
+    snap = observe_container(static)
+    h.append(('a', 2, 'y'))
+    h.append(('b', 1, 'x'))
+    _ = h.values
+    h.append(('b', 2, 'x'))
+    h.extend(sf.IndexHierarchy.from_labels([('c', 1, 'x'), ('c', 1, 'z')]))
+    if observe_container(static) != snap or probe_absent(static, [('b', 1, 'x'), ('c', 1, 'z')]):
+        raise AssertionError('C01-VIOLATION: a static IndexHierarchy built from an IndexHierarchyGO changed when the source grew')
+    return (h, h.values, h.values_at_depth(0), h.values_at_depth(2), h.positions, sf.IndexHierarchy(h), h.copy())
+
+
+def _arraygo(ArrayGO, e):
+    a = e.arr(np.array(['a', 1, None], dtype=object))
+    g = ArrayGO(a)
+    g2 = ArrayGO(e.arr(np.array([1, 2], dtype=object)), own_iterable=False)
+    g.append('z')
+    c = g.copy()
+    g.extend(('q', 'r'))
+    return (g.values, c.values, g2.values, g[1], len(g))
+
+
+def _setitem(sf, e, mk):
+    g = sf.FrameGO(np.arange(6).reshape(3, 2), index=tuple('abc'), columns=tuple('pq'))
+    static = e.reg(g.to_frame())
+    g['new'] = mk(e)
+    return g
+
+
+def route_cases(ctx):
+    import warnings
+    for name, fn in _routes():
+        env = RouteEnv()
+        why = None
+        with warnings.catch_warnings():
+            warnings.simplefilter('ignore')
+            try:
+                with _time_limit(20):
+                    result = fn(env)
+                raised = None
+            except AssertionError as ex:
+                result, raised = None, 'AssertionError'
+                if 'C01-VIOLATION' in str(ex):
+                    why = str(ex)
+            except Exception as ex:  # noqa: a failing call: the receivers must still be unchanged
+                result, raised = None, type(ex).__name__
+            snaps = [observe_container(r) for r in env.receivers]
+            # flags and aliasing of everything reachable from the result
+            bare = []
+            if why is None and result is not None:
+                held_ids = {id(a) for a in env.held}
+                for apath, a, inside in walk_arrays(result):
+                    if id(a) in held_ids and not inside:
+                        continue
+                    if a.flags.writeable:
+                        alias = any(np.may_share_memory(a, b) and np.shares_memory(a, b) for r in env.receivers for _, b, _ in walk_arrays(r))
+                        if inside or alias:
+                            why = f'array at {apath} (dtype {a.dtype}, shape {a.shape}) is writeable' + (' and is held by a returned container' if inside else ' and shares memory with a receiver')
+                            break
+                        bare.append(apath)
+                    if inside:
+                        for c in env.held:
+                            if c.flags.writeable and np.may_share_memory(a, c) and np.shares_memory(a, c):
+                                why = f'array at {apath} of the returned container shares memory with a writeable caller array'
+                                break
+                    if why:
+                        break
+            # the caller writes into every array it passed in
+            if why is None:
+                res_before = [observe_container(x) for _, x in _containers_in(result)]
+                for a in env.held:
+                    if a.flags.writeable and a.size:
+                        flat = a.reshape(-1)
+                        try:
+                            flat[0] = flat[-1] if a.dtype.kind not in 'iuf' else flat[0] + 1
+                        except Exception:  # noqa
+                            pass
+                if [observe_container(x) for _, x in _containers_in(result)] != res_before:
+                    why = 'a write into a caller-held argument array after the call shows through the returned container'
+            if why is None and [observe_container(r) for r in env.receivers] != snaps:
+                why = 'a receiver / argument container changed'
+            for r in env.receivers:
+                w = [p for p, a, _ in walk_arrays(r) if a.flags.writeable]
+                if w and why is None:
+                    why = f'a receiver holds writeable arrays {w[:3]}'
+        ctx.count('route:' + ('raised' if raised else 'returned'))
+        yield Case('api:scripted-routes', {'route': name, 'raised': raised, 'receivers': len(env.receivers), 'caller_arrays': len(env.held)},
+                   py_fail=None if why is None else f'{name} : {why}', tags={'check': 'route', 'route': name}, nontrivial=raised is None, key='route|' + name)
+        if bare:
+            yield Case('api:scripted-routes', {'route': name, 'bare_writeable_arrays': bare[:5]}, py_fail=f'{name} : bare result array at {bare[0]} is writeable',
+                       tags={'check': 'bare-array-readonly', 'route': name}, key='route|bare|' + name)
+
+
+def _containers_in(obj, path='r', out=None, depth=0):
+    '''Containers (Series / Frame / Index / IndexHierarchy / TypeBlocks) in a result of nested tuples.'''
+    from static_frame.core.container import ContainerBase
+    if out is None:
+        out = []
+    if isinstance(obj, ContainerBase) and type(obj).__name__ not in ('Bus', 'Batch', 'Quilt'):
+        out.append((path, obj))
+    elif isinstance(obj, (tuple, list)) and depth < 4:
+        for i, x in enumerate(obj):
+            _containers_in(x, f'{path}[{i}]', out, depth + 1)
+    return out
+
+
 def cases(ctx):
     # the enumeration starts with the 'large' phase (PositionsAllocator regrows): every later stratum runs in a process whose shared
     # positions array has been replaced, which is the state a long-lived user process is in
     yield from enumeration_cases(ctx)
     yield from regression_cases(ctx)
+    yield from route_cases(ctx)
     yield from grow_cases(ctx)
     yield from heap_cases(ctx)
 
@@ -2511,12 +2953,114 @@ def allocator_audit(repo):
     return ok[0]
 
 
+def filter_decision(repo):
+    '''util.immutable_filter read from the AST: (action when the argument is writeable, action when it is read-only), each one of
+    FCopyFreeze / FKeep / FFreezeInPlace / FCopy (constructors of SF.Heap.filter_action). Fails closed on any other shape.'''
+    import ast
+    tree = _parse(repo, 'util.py')
+    fn = next((n for n in tree.body if isinstance(n, ast.FunctionDef) and n.name == 'immutable_filter'), None)
+    if fn is None or len(fn.args.args) != 1:
+        raise ValueError('util.immutable_filter(src_array) not found')
+    src = fn.args.args[0].arg
+    body = [st for st in fn.body if not (isinstance(st, ast.Expr) and isinstance(st.value, ast.Constant))]
+    if not body or not isinstance(body[0], ast.If):
+        raise ValueError('util.immutable_filter: expected `if src_array.flags.writeable:` first')
+    test = body[0].test
+    if not (isinstance(test, ast.Attribute) and test.attr == 'writeable' and isinstance(test.value, ast.Attribute) and test.value.attr == 'flags'
+            and isinstance(test.value.value, ast.Name) and test.value.value.id == src):
+        raise ValueError('util.immutable_filter: unexpected test')
+
+    def action(stmts):
+        copies, frozen, ret = set(), set(), None
+        for st in stmts:
+            if isinstance(st, ast.Assign) and len(st.targets) == 1 and isinstance(st.targets[0], ast.Name) and isinstance(st.value, ast.Call) \
+                    and isinstance(st.value.func, ast.Attribute) and st.value.func.attr == 'copy' and isinstance(st.value.func.value, ast.Name) and st.value.func.value.id == src and not st.value.args:
+                copies.add(st.targets[0].id)
+            elif _is_flag_assign(st, False) is not None and isinstance(_is_flag_assign(st, False), ast.Name):
+                frozen.add(_is_flag_assign(st, False).id)
+            elif isinstance(st, ast.Return) and isinstance(st.value, ast.Name):
+                ret = st.value.id
+                break
+            else:
+                raise ValueError('util.immutable_filter: unexpected statement ' + ast.dump(st)[:80])
+        if ret is None:
+            return None
+        if ret == src:
+            return 'FFreezeInPlace' if src in frozen else 'FKeep'
+        if ret in copies:
+            return 'FCopyFreeze' if ret in frozen else 'FCopy'
+        raise ValueError('util.immutable_filter: returns something that is neither the argument nor a copy of it')
+
+    when_w = action(body[0].body)
+    rest = body[0].orelse or body[1:]
+    when_ro = action(rest)
+    if when_w is None:          # the writeable branch falls through to the common tail
+        when_w = action(body[0].body + list(body[1:]))
+    if when_w is None or when_ro is None:
+        raise ValueError('util.immutable_filter: a path without return')
+    return when_w, when_ro
+
+
+def constructor_routes(repo):
+    '''Which route each array-taking entry point uses for an ndarray argument (RFilter = through immutable_filter, ROwn = frozen in place
+    and kept), read from the AST; fails closed when an entry point no longer filters its argument.'''
+    import ast
+
+    def func(fname, cls, name):
+        tree = _parse(repo, fname)
+        k = next((n for n in tree.body if isinstance(n, ast.ClassDef) and n.name == cls), None)
+        f = None if k is None else next((n for n in k.body if isinstance(n, ast.FunctionDef) and n.name == name), None)
+        if f is None:
+            raise ValueError(f'{fname}: {cls}.{name} not found')
+        return f
+
+    def calls_filter_on(node, argname):
+        return (isinstance(node, ast.Call) and isinstance(node.func, ast.Name) and node.func.id == 'immutable_filter' and len(node.args) == 1
+                and isinstance(node.args[0], ast.Name) and node.args[0].id == argname)
+    out = {}
+    f = func('series.py', 'Series', '__init__')
+    if not any(isinstance(n, ast.Assign) and isinstance(n.targets[0], ast.Attribute) and n.targets[0].attr == 'values' and calls_filter_on(n.value, 'values') for n in ast.walk(f)):
+        raise ValueError('Series.__init__ no longer assigns self.values = immutable_filter(values)')
+    out['route_series_init'] = 'RFilter'
+    f = func('index.py', 'Index', '_extract_labels')
+    if not any(isinstance(n, ast.Return) and calls_filter_on(n.value, 'labels') for n in ast.walk(f)):
+        raise ValueError('Index._extract_labels no longer returns immutable_filter(labels)')
+    out['route_index_labels'] = 'RFilter'
+    f = func('type_blocks.py', 'TypeBlocks', 'from_blocks')
+    appended = [n for n in ast.walk(f) if isinstance(n, ast.Call) and isinstance(n.func, ast.Attribute) and n.func.attr == 'append' and isinstance(n.func.value, ast.Name) and n.func.value.id == 'blocks']
+    if len(appended) < 2 or not all(len(n.args) == 1 and (calls_filter_on(n.args[0], 'raw_blocks') or calls_filter_on(n.args[0], 'block')) for n in appended):
+        raise ValueError('TypeBlocks.from_blocks appends a block that did not go through immutable_filter')
+    out['route_tb_from_blocks'] = 'RFilter'
+    f = func('type_blocks.py', 'TypeBlocks', 'append')
+    appended = [n for n in ast.walk(f) if isinstance(n, ast.Call) and isinstance(n.func, ast.Attribute) and n.func.attr == 'append' and isinstance(n.func.value, ast.Attribute) and n.func.value.attr == '_blocks']
+    if len(appended) != 1 or not calls_filter_on(appended[0].args[0], 'block'):
+        raise ValueError('TypeBlocks.append no longer appends immutable_filter(block)')
+    out['route_tb_append'] = 'RFilter'
+    f = func('frame.py', 'Frame', '__init__')
+    branch = None
+    for n in ast.walk(f):
+        if isinstance(n, ast.If) and isinstance(n.test, ast.Compare) and isinstance(n.test.comparators[0], ast.Attribute) and n.test.comparators[0].attr == 'ndarray' \
+                and isinstance(n.test.left, ast.Attribute) and n.test.left.attr == '__class__' and isinstance(n.test.left.value, ast.Name) and n.test.left.value.id == 'data':
+            branch = n.body
+    if branch is None:
+        raise ValueError('Frame.__init__: the `data.__class__ is np.ndarray` branch was not found')
+    own_freezes = any(isinstance(st, ast.If) and isinstance(st.test, ast.Name) and st.test.id == 'own_data'
+                      and any(_is_flag_assign(x, False) is not None and isinstance(_is_flag_assign(x, False), ast.Name) and _is_flag_assign(x, False).id == 'data' for x in st.body) for st in branch)
+    to_blocks = any(isinstance(st, ast.Assign) and isinstance(st.value, ast.Call) and isinstance(st.value.func, ast.Attribute) and st.value.func.attr == 'from_blocks'
+                    and len(st.value.args) == 1 and isinstance(st.value.args[0], ast.Name) and st.value.args[0].id == 'data' for st in branch)
+    if not to_blocks:
+        raise ValueError('Frame.__init__: ndarray data no longer goes through TypeBlocks.from_blocks')
+    out['route_frame_init'] = 'RFilter'
+    out['route_frame_init_own_data'] = 'ROwn' if own_freezes else 'RFilter'
+    return out
+
+
 def generate(repo):
     tab = setstate_table(repo)
     cen = freeze_census(repo)
     b = lit.b
     lines = ['(* GENERATED on every run by tools/sfv/props/c01.py from the AST of /repo/static_frame/core -- do not edit. *)',
-             'Require Import SF.Prelude.', 'Local Open Scope string_scope.', 'Local Open Scope nat_scope.', '',
+             'Require Import SF.Prelude SF.Heap.', 'Local Open Scope string_scope.', 'Local Open Scope nat_scope.', '',
              '(* which ndarray slots __setstate__ re-freezes after unpickling (True) and which it leaves writeable (False) *)',
              'Definition setstate_refreezes : list (string * list (string * bool)) := ['
              + '; '.join(f'({lit.s(c)}, [' + '; '.join(f'({lit.s(n)}, {b(f)})' for n, f in slots) + '])' for c, slots in sorted(tab.items())) + '].',
@@ -2525,6 +3069,10 @@ def generate(repo):
              f'Definition pickle_flag_block : bool := {b(tab["TypeBlocks"][0][1])}.',
              f'Definition pickle_flag_arraygo : bool := {b(tab["ArrayGO"][0][1])}.',
              'Definition pickle_flags_series : list bool := pickle_flag_series_values :: pickle_flags_index.',
+             '(* util.immutable_filter as written in the source: what is returned for a writeable / a read-only argument *)',
+             'Definition source_filter (w : bool) : filter_action := if w then %s else %s.' % filter_decision(repo),
+             '(* the route an ndarray argument takes in each array-taking entry point (RFilter = through immutable_filter; ROwn = frozen in place and kept) *)',
+             ] + [f'Definition {k} : route := {v}.' for k, v in sorted(constructor_routes(repo).items())] + [
              '(* util.PositionsAllocator: every assignment of the shared _array is followed by a freeze of that very array; get() returns a slice of it *)',
              f'Definition positions_allocator_publishes_frozen : bool := {b(allocator_audit(repo))}.',
              'Definition pickle_flags_frame1 : list bool := pickle_flag_block :: (pickle_flags_index ++ pickle_flags_index)%list.',
